@@ -145,6 +145,10 @@ def work(case):
         op = {"kind": kind}
         if kind in ("edits", "mixed"):
             op["edits"] = editgen.gen_mixed_batch(rng, doc, texts, rng.randint(1, 3), comment_p=0.5)
+            if rng.random() < 0.4:
+                # new paragraphs / a heading in front of a paragraph (the first paragraph of the body behind a header)
+                op["edits"] += [e for e in editgen.gen_block_prefix_edit(rng, doc, texts)
+                                if not any(e["pi"] == y.get("pi") for y in op["edits"])]
         if kind in ("actions", "mixed"):
             op["actions"] = c06.gen_actions(rng, doc)
         if kind == "replies":
@@ -228,6 +232,13 @@ def oracle(res):
                 fails.append(f"number of {part} changed")
             elif not (op.get("edits")) and stories_in != stories_out:
                 fails.append(f"{part} changed although no edit was submitted")
+        if op.get("edits") and not op.get("actions"):
+            # a story none of whose text is targeted keeps exactly its content
+            sin, sout = sem.active_stories(res["in_doc"]), sem.active_stories(res["out_doc"])
+            if len(sin) == len(sout):
+                for i, (x, y) in enumerate(zip(sin, sout)):
+                    if i not in edited and sem.canon_blocks(x) != sem.canon_blocks(y):
+                        fails.append(f"story {i} (body is {sem.body_story_index(res['in_doc'])}) changed although no edit targets its text")
     # section / paragraph / table properties inside the stories
     if res["in_doc"].get("sect") != res["out_doc"].get("sect") or res["in_doc"].get("title_pg") != res["out_doc"].get("title_pg"):
         fails.append("section properties of the main document changed")
